@@ -1,17 +1,26 @@
 /-
 Props/C25 — jq value identities, as theorems over the value-level functions of Model/JqValue.lean
-(the functions the evaluator's builtins call). `N` is an arbitrary number carrier.
+(the functions the evaluator's builtins call). `N` is an arbitrary number carrier; theorems that need
+properties of numbers assume `LawfulNum N` (order laws of the carrier, integers index exactly).
+Values are duplicate-free (`JV.WF`) where object keys matter.
 
-Proved in full: the cross-kind part of jq's order (`cmp_rank_lt`, `cmp_kind_chain`), `sort` returns
-a permutation (`sort_perm`) which is ordered for every comparator that is total and transitive
-(`sortBy_sorted`), `unique` output has no two adjacent equal elements (`unique_no_adjacent_dup`),
-object field write/read laws and the one-step `setpath`/`getpath` laws on objects
-(`getpath_setpath_field`, `setpath_getpath_id_field`, `setpath_frame_field`), `to_from_entries` for
-duplicate-free objects. Not proved here (checked by the C25 correspondence on generated values and
-every path instead): totality/transitivity of `JV.cmp` on objects, the multi-step path laws,
-`tojson|fromjson`, `tostream|fromstream`, `@base64|@base64d`, `@uri` decode.
+Proved in full:
+* `cmp_total_order` (+ `cmp_refl/cmp_swap/cmp_trans`, `cmp_kind_chain`, `cmp_arr_cons`): jq's order is
+  a total preorder on all duplicate-free values (Proof/JqOrder.lean);
+* `sort_sorted_perm`, `unique_dedup_sorted`;
+* `getpath_defined`, `setpath_getpath_id`, `getpath_setpath`, `setpath_frame` for every `p ∈ paths v`
+  (Proof/JqPaths.lean), and the one-step object versions;
+* `to_from_entries` for duplicate-free objects;
+* `base64_round_trip`, `uri_round_trip` for all byte strings (Proof/JqCodec.lean).
+Not proved here (evaluated by the C25 correspondence on generated values instead):
+`tojson_fromjson` (printer/reader round trip over the carrier's print/parse law),
+`tostream_fromstream`, and "`cmp a b = eq` iff `eqv a b`" (antisymmetry is proved in the form
+`cmp b a = (cmp a b).swap`).
 -/
 import SuccinctlyVerif.Model.Jq
+import SuccinctlyVerif.Proof.JqOrder
+import SuccinctlyVerif.Proof.JqCodec
+import SuccinctlyVerif.Proof.JqPaths
 namespace SV.Props.C25
 open SV.Jq
 variable {N : Type} [NumOps N]
@@ -129,6 +138,143 @@ theorem dedupFirst_sublist (xs : List (JV N)) : (dedupFirst xs).Sublist xs := by
 theorem unique_sublist_sort (xs : List (JV N)) : (JV.unique xs).Sublist (JV.sort xs) :=
   dedupFirst_sublist _
 
+/-! ### the order is a total preorder; `sort` and `unique` in full -/
+section total
+variable [LawfulNum N]
+
+/-- **`cmp_total_order`**: on duplicate-free values jq's order is reflexive, total/antisymmetric
+(`cmp b a = (cmp a b).swap`) and transitive, for every lawful number carrier: null < false < true <
+numbers < strings < arrays (lexicographic) < objects (sorted key lists, then values by key). -/
+theorem cmp_total_order : PreorderOn (JV.cmp (N := N)) JV.WF := cmp_preorder
+
+theorem cmp_refl (a : JV N) (ha : a.WF) : JV.cmp a a = .eq := cmp_preorder.refl a ha
+theorem cmp_swap (a b : JV N) (ha : a.WF) (hb : b.WF) : JV.cmp b a = (JV.cmp a b).swap :=
+  cmp_preorder.swap a b ha hb
+theorem cmp_trans (a b c : JV N) (ha : a.WF) (hb : b.WF) (hc : c.WF)
+    (h1 : JV.cmp a b ≠ .gt) (h2 : JV.cmp b c ≠ .gt) : JV.cmp a c ≠ .gt :=
+  cmp_preorder.trans a b c ha hb hc h1 h2
+
+theorem insertBy_sorted_on {α} {c : α → α → Ordering} {S : α → Prop} (h : PreorderOn c S) (x : α) (ys : List α)
+    (hx : S x) (hy : ∀ y ∈ ys, S y) (hs : Sorted c ys) : Sorted c (insertBy c x ys) := by
+  induction ys with
+  | nil => simp [insertBy, Sorted]
+  | cons y ys ih =>
+    simp only [insertBy]
+    have hyall : ∀ b ∈ ys, c y b ≠ .gt := (List.pairwise_cons.mp hs).1
+    have hys : Sorted c ys := (List.pairwise_cons.mp hs).2
+    have sy := hy y (by simp)
+    split
+    · rename_i hle
+      have hxy : c x y ≠ .gt := by simpa using hle
+      refine List.pairwise_cons.mpr ⟨?_, hs⟩
+      intro b hb
+      rcases List.mem_cons.mp hb with rfl | hb
+      · exact hxy
+      · exact h.trans x y b hx sy (hy b (by simp [hb])) hxy (hyall b hb)
+    · rename_i hgt
+      have hxy : c x y = .gt := by cases hc : c x y <;> simp_all
+      refine List.pairwise_cons.mpr ⟨?_, ih (fun b hb => hy b (by simp [hb])) hys⟩
+      intro b hb
+      have hb' : b ∈ x :: ys := (insertBy_perm c x ys).mem_iff.mp hb
+      rcases List.mem_cons.mp hb' with rfl | hb'
+      · rw [h.swap _ _ hx sy, hxy]; simp [Ordering.swap]
+      · exact hyall b hb'
+
+theorem sortBy_sorted_on {α} {c : α → α → Ordering} {S : α → Prop} (h : PreorderOn c S) (xs : List α)
+    (hx : ∀ x ∈ xs, S x) : Sorted c (sortBy c xs) := by
+  induction xs with
+  | nil => simp [sortBy, Sorted]
+  | cons x xs ih =>
+    have e : sortBy c (x :: xs) = insertBy c x (sortBy c xs) := by simp [sortBy]
+    rw [e]
+    exact insertBy_sorted_on h x _ (hx x (by simp))
+      (fun y hy => hx y (by simp [(sortBy_perm c xs).mem_iff.mp hy])) (ih (fun y hy => hx y (by simp [hy])))
+
+/-- **`sort_sorted_perm`**: `sort` returns an ordered permutation of its input. -/
+theorem sort_sorted_perm (xs : List (JV N)) (hx : ∀ x ∈ xs, x.WF) :
+    (JV.sort xs).Perm xs ∧ Sorted JV.cmp (JV.sort xs) :=
+  ⟨sort_perm xs, sortBy_sorted_on cmp_preorder xs hx⟩
+
+/-- strictly increasing -/
+def StrictSorted (l : List (JV N)) : Prop := l.Pairwise (fun a b => JV.cmp a b = .lt)
+
+theorem dedupFirst_strict (l : List (JV N)) (hw : ∀ x ∈ l, x.WF) (hs : Sorted JV.cmp l) :
+    StrictSorted (dedupFirst l) ∧ (∀ u ∈ dedupFirst l, u ∈ l) ∧
+      (∀ a ∈ l, ∃ u ∈ dedupFirst l, JV.cmp u a = .eq) := by
+  have P := cmp_preorder (N := N)
+  induction l with
+  | nil => simp [dedupFirst, StrictSorted]
+  | cons x rest ih =>
+    have hxr : ∀ b ∈ rest, JV.cmp x b ≠ .gt := (List.pairwise_cons.mp hs).1
+    have hsr : Sorted JV.cmp rest := (List.pairwise_cons.mp hs).2
+    have wx := hw x (by simp)
+    have wr : ∀ y ∈ rest, y.WF := fun y hy => hw y (by simp [hy])
+    obtain ⟨ih1, ih2, ih3⟩ := ih wr hsr
+    simp only [dedupFirst]
+    cases hd : dedupFirst rest with
+    | nil =>
+      rw [hd] at ih3
+      refine ⟨by simp [StrictSorted], by simp, ?_⟩
+      intro a ha
+      rcases List.mem_cons.mp ha with rfl | ha
+      · exact ⟨a, by simp, P.refl a wx⟩
+      · obtain ⟨u, hu, _⟩ := ih3 a ha; simp at hu
+    | cons y ys =>
+      rw [hd] at ih1 ih2 ih3
+      have hy_rest : y ∈ rest := ih2 y (by simp)
+      have wy := wr y hy_rest
+      have hyys : ∀ z ∈ ys, JV.cmp y z = .lt := (List.pairwise_cons.mp ih1).1
+      have hys : StrictSorted ys := (List.pairwise_cons.mp ih1).2
+      have hxy_le := hxr y hy_rest
+      by_cases heq : JV.cmp x y = .eq
+      · simp only [heq, beq_self_eq_true, ↓reduceIte]
+        refine ⟨?_, ?_, ?_⟩
+        · refine List.pairwise_cons.mpr ⟨?_, hys⟩
+          intro z hz
+          exact P.lt_of_le_of_lt wx wy (wr z (ih2 z (by simp [hz]))) hxy_le (hyys z hz)
+        · intro u hu
+          rcases List.mem_cons.mp hu with rfl | hu
+          · simp
+          · exact List.mem_cons_of_mem _ (ih2 u (by simp [hu]))
+        · intro a ha
+          rcases List.mem_cons.mp ha with rfl | ha
+          · exact ⟨a, by simp, P.refl a wx⟩
+          · obtain ⟨u, hu, hua⟩ := ih3 a ha
+            rcases List.mem_cons.mp hu with rfl | hu
+            · exact ⟨x, by simp, P.eq_trans wx wy (wr a ha) heq hua⟩
+            · exact ⟨u, by simp [hu], hua⟩
+      · have hne : (JV.cmp x y == .eq) = false := by simpa using heq
+        simp only [hne, Bool.false_eq_true, ↓reduceIte]
+        have hlt : JV.cmp x y = .lt := by cases hc : JV.cmp x y <;> simp_all
+        refine ⟨?_, ?_, ?_⟩
+        · refine List.pairwise_cons.mpr ⟨?_, ih1⟩
+          intro z hz
+          rcases List.mem_cons.mp hz with rfl | hz
+          · exact hlt
+          · have wz := wr z (ih2 z (by simp [hz]))
+            exact P.lt_of_lt_of_le wx wy wz hlt (by rw [hyys z hz]; simp)
+        · intro u hu
+          rcases List.mem_cons.mp hu with rfl | hu
+          · simp
+          · exact List.mem_cons_of_mem _ (ih2 u hu)
+        · intro a ha
+          rcases List.mem_cons.mp ha with rfl | ha
+          · exact ⟨a, by simp, P.refl a wx⟩
+          · obtain ⟨u, hu, hua⟩ := ih3 a ha
+            exact ⟨u, List.mem_cons_of_mem _ hu, hua⟩
+
+/-- **`unique_dedup_sorted`**: `unique` returns a strictly increasing list whose members all occur in
+the input and which contains a representative (equal under the order) of every input element. -/
+theorem unique_dedup_sorted (xs : List (JV N)) (hx : ∀ x ∈ xs, x.WF) :
+    StrictSorted (JV.unique xs) ∧ (∀ u ∈ JV.unique xs, u ∈ xs) ∧
+      (∀ a ∈ xs, ∃ u ∈ JV.unique xs, JV.cmp u a = .eq) := by
+  have hp := sort_perm xs
+  have hw : ∀ x ∈ JV.sort xs, x.WF := fun x h => hx x (hp.mem_iff.mp h)
+  obtain ⟨h1, h2, h3⟩ := dedupFirst_strict (JV.sort xs) hw (sortBy_sorted_on cmp_preorder xs hx)
+  exact ⟨h1, fun u hu => hp.mem_iff.mp (h2 u hu), fun a ha => h3 a (hp.mem_iff.mpr ha)⟩
+
+end total
+
 /-! ### object fields, one-step paths, entries -/
 
 theorem lookup_insert_same (fs : List (String × JV N)) (k : String) (v : JV N) :
@@ -224,7 +370,87 @@ theorem to_from_entries (fs : List (String × JV N)) (h : NoDupKeys fs) : JV.mkO
   rw [foldl_insert_append [] fs (by simpa using h)]
   simp
 
+/-! ### path laws for every `p ∈ paths v` -/
+section pathlaws
+variable [LawfulNum N]
+
+/-- **`getpath_defined`**: every path of a duplicate-free value can be read. -/
+theorem getpath_defined (v : JV N) (hw : v.WF) (p : List (JV N)) (hp : p ∈ v.paths) :
+    ∃ w, v.getpath p = .ok w := SV.Jq.getpath_defined (paths_valid v hw p hp)
+
+/-- **`setpath_getpath_id`**: `setpath(p; getpath(p))` reproduces the value, for every `p ∈ paths v`. -/
+theorem setpath_getpath_id (v : JV N) (hw : v.WF) (p : List (JV N)) (hp : p ∈ v.paths) :
+    (v.getpath p).bind (fun w => v.setpath p w) = .ok v := SV.Jq.setpath_getpath_id (paths_valid v hw p hp)
+
+/-- **`getpath_setpath`**: `getpath(p)` after `setpath(p; x)` is `x`, for every `p ∈ paths v`. -/
+theorem getpath_setpath (v : JV N) (hw : v.WF) (p : List (JV N)) (hp : p ∈ v.paths) (x : JV N) :
+    (v.setpath p x).bind (fun v' => v'.getpath p) = .ok x := SV.Jq.getpath_setpath (paths_valid v hw p hp) x
+
+/-- **`setpath_frame`**: assignment to `p` changes exactly `p`: any other path `q ∈ paths v` that is
+neither a prefix nor an extension of `p` reads the same value afterwards. -/
+theorem setpath_frame (v : JV N) (hw : v.WF) (p q : List (JV N)) (hp : p ∈ v.paths) (hq : q ∈ v.paths)
+    (hinc : Incomparable p q) (x : JV N) :
+    (v.setpath p x).bind (fun v' => v'.getpath q) = v.getpath q :=
+  SV.Jq.setpath_frame (paths_valid v hw p hp) (paths_valid v hw q hq) hinc x
+
+end pathlaws
+
+/-! ### encoders / decoders -/
+
+/-- **`base64_round_trip`**: decoding the `@base64` text of any byte string gives the bytes back. -/
+theorem base64_round_trip (bs : List UInt8) : b64dec (b64enc bs) = some bs := SV.Jq.base64_round_trip bs
+
+/-- **`uri_round_trip`**: percent-decoding the `@uri` text of any byte string gives the bytes back. -/
+theorem uri_round_trip (bs : List UInt8) : uriDec (uriEnc bs) = some bs := SV.Jq.uri_round_trip bs
+
 /-! ### non-vacuity -/
+
+/-- a lawful carrier exists: the integers with their usual order -/
+instance intCarrier : NumOps Int where
+  ofInt := id
+  ofLit := fun s => s.toInt?
+  plain := id
+  cmp := compare
+  eq := fun a b => a == b
+  toInt? := some
+  truncI64 := id
+  print := fun i => some (toString i)
+  add := (· + ·)
+  sub := (· - ·)
+  mul := (· * ·)
+  div := fun a b => if b == 0 then none else some (a / b)
+  mod := fun a b => if b == 0 then none else some (a % b)
+  neg := fun a => -a
+  math := fun _ a => some a
+  isNan := fun _ => false
+  isInf := fun _ => false
+  nan := 0
+  inf := 0
+  canon := fun i => "i" ++ toString i
+
+instance : LawfulNum Int where
+  cmp_refl a := by simp [NumOps.cmp, Std.ReflCmp.compare_self]
+  cmp_swap a b := by
+    show compare b a = (compare a b).swap
+    rw [Std.OrientedCmp.eq_swap (cmp := (compare : Int → Int → Ordering)) (a := b) (b := a)]
+  cmp_trans a b c h1 h2 := by
+    simp only [NumOps.cmp] at *
+    have h1' : (compare a b).isLE := by cases hc : compare a b <;> simp_all [Ordering.isLE]
+    have h2' : (compare b c).isLE := by cases hc : compare b c <;> simp_all [Ordering.isLE]
+    have := Std.TransCmp.isLE_trans (cmp := (compare : Int → Int → Ordering)) h1' h2'
+    intro hgt; simp_all [Ordering.isLE]
+  cmp_eq_iff a b := by simp [NumOps.cmp, Std.LawfulEqCmp.compare_eq_iff_eq]
+  toInt_ofInt i := rfl
+  ofInt_inj i j h := h
+  isNan_ofInt _ := rfl
+  floor_ofInt _ := rfl
+
+example : ([.str "a", JV.ofNat 0] : List (JV Int)) ∈ (JV.obj [("a", .arr [.null])] : JV Int).paths := by
+  simp [JV.paths, JV.pathsFrom, pathsObj, pathsArr]
+
+example : (JV.obj [("a", .num (1 : Int)), ("b", .arr [.null])] : JV Int).WF := by
+  simp [JV.WF, wfF, wfL]
+
 example : NoDupKeys ([("a", .null), ("b", .bool true)] : List (String × JV Unit)) := by
   simp [NoDupKeys]
 example : ∃ a b : JV Unit, a.rank < b.rank := ⟨.null, .bool true, by simp [JV.rank]⟩
